@@ -426,9 +426,16 @@ func (c *layoutCase) Run() string {
 		return c.out
 	}
 	src, _, _ := c.render()
-	b := loadBatch([]map[string]string{{"p.go": src, "q.go": siblingFile(src)}})
+	pkgs := []map[string]string{{"p.go": src, "q.go": siblingFile(src)}}
+	b := loadBatch(pkgs)
 	defer b.Close()
 	c.out, c.have = c.eval(b.Pkg(0)), true
+	// and once more, loaded by a caller that brings its own file set: the answers are the same
+	b2 := loadBatchFset(pkgs, true)
+	defer b2.Close()
+	if o2 := c.eval(b2.Pkg(0)); o2 != c.out {
+		c.out = o2
+	}
 	return c.out
 }
 
@@ -748,12 +755,17 @@ func layoutBatch(cases []Case) []string {
 			pkgs = append(pkgs, map[string]string{"p.go": src, "q.go": siblingFile(src)})
 		}
 		b := loadBatch(pkgs)
+		b2 := loadBatchFset(pkgs, true) // the same packages, loaded by a caller that brings its own file set
 		for i, c := range cases[start:end] {
 			lc := c.(*layoutCase)
 			lc.out, lc.have = lc.eval(b.Pkg(i)), true
+			if o2 := lc.eval(b2.Pkg(i)); o2 != lc.out {
+				lc.out = o2 // judged like any other answer
+			}
 			res[start+i] = lc.out
 		}
 		b.Close()
+		b2.Close()
 	}
 	return res
 }
@@ -831,7 +843,7 @@ func init() {
 			Name: "layout", Quick: 1600, Thorough: 12000, New: func() Case { return &layoutCase{} },
 			Gen:      func(r *Rng, i int) Case { return genLayout(r) },
 			BatchRun: layoutBatch, ShrinkBudget: 60, MaxShrinks: 6,
-			Rule: "source files of 1–3 sections (ungrouped var/type/const, struct fields, grouped const/var/type) × 1–7 rows among blank line, 1–3-line comment group (line or block comments, tag lines, go: prose), one- or three-line declaration with or without trailing comment, multi-name declarations; comments that belong to no declaration on lines that hold code (after the opening brace of a struct or the opening parenthesis of a group, behind a one-line function) directly above declarations; in about one file of three a `//line file:N` directive between two sections, naming a file of its own, a file another directive names too, the source file itself or an absolute path in another directory (what follows is then numbered like lines elsewhere); loaded with the real types.Load (400 packages per load); Doc and Comment of every declared name compared with the model on the same layout and with the layout's own ground truth; the questions about a freshly loaded package are put by four goroutines at once and all must be told the same; the package holds a second file with the same line structure under other names and with other comment texts; every name is asked twice and the harness scribbles over the first answer (lines, comment, tag map) in between: the second answer must be the same",
+			Rule: "source files of 1–3 sections (ungrouped var/type/const, struct fields, grouped const/var/type) × 1–7 rows among blank line, 1–3-line comment group (line or block comments, tag lines, go: prose), one- or three-line declaration with or without trailing comment, multi-name declarations; comments that belong to no declaration on lines that hold code (after the opening brace of a struct or the opening parenthesis of a group, behind a one-line function) directly above declarations; in about one file of three a `//line file:N` directive between two sections, naming a file of its own, a file another directive names too, the source file itself or an absolute path in another directory (what follows is then numbered like lines elsewhere); loaded with the real types.Load (400 packages per load), once the plain way and once by a caller that supplies its own token.FileSet through packages.Config — both must give the same answers; Doc and Comment of every declared name compared with the model on the same layout and with the layout's own ground truth; the questions about a freshly loaded package are put by four goroutines at once and all must be told the same; the package holds a second file with the same line structure under other names and with other comment texts; every name is asked twice and the harness scribbles over the first answer (lines, comment, tag map) in between: the second answer must be the same",
 		},
 		{
 			Name: "layout-enum", New: func() Case { return &layoutCase{} },
